@@ -134,6 +134,8 @@ func init() {
 		Old:       "			s := string(b)\n			q, err := gojq.Parse(s)",
 		New:       "			s := string(b) + name\n			q, err := gojq.Parse(s)",
 		ExpectKey: "parameter name of"})
+	AddControl(Control{ID: "c18-statictype-ebml-unknown", Prop: "C18", Rule: "C18.statictype", File: "format/matroska/matroska.go",
+		Old: "\t\t\t\t\t\t\tchildElm = &ebml.Unknown{}\n", New: "\t\t\t\t\t\t\tchildElm = &ebml.Unknown{}\n\t\t\t\t\t\t\telm.Master[ebml.ID(n)] = childElm\n", ExpectKey: "ebml.Master.Master|mapupdate"})
 	AddControl(Control{ID: "c18-parked-shared-defragmenter", Prop: "C18", Rule: "C18.parked", File: "format/inet/flowsdecoder/flowsdecoder.go",
 		Old:       "	flowDecoder.ipv4Defrag = ip4defrag.NewIPv4Defragmenter()\n\n	return flowDecoder\n}\n",
 		New:       "	flowDecoder.ipv4Defrag = ipv4Defragmenter\n\n	return flowDecoder\n}\n\nvar ipv4Defragmenter = ip4defrag.NewIPv4Defragmenter()\n",
